@@ -37,6 +37,24 @@ CHECKS = {
  "C11": dict(technique="differential runtime monitoring vs structural equality of canonical renderings and Python sequence/dict/set models",
              text="Exploration: generated pairs/triples of values of all kinds with explicit sharing and diamond DAGs (equal?, symmetry, transitivity, interchangeability as hash keys / set members) and seeded operation sequences on each collection kind, compared with the reference machine (top level, module, JIT off).",
              note="Trusted: canonical rendering equality as the definition of structural equality; exact and inexact numbers differ; mutable vs immutable vectors are not cross-compared.", ref="DESIGN.md §5 C11"),
+ "C04": dict(technique="invariant at a hook (H-slot: access through a handle to a slot the collector freed) + poisoning of freed slots + differential comparison with the reference machine, under forced full collections at every k-th allocation",
+             text="Exploration: root-placement templates (pending argument, let temporary, closure capture, open/closed continuation, exception handler incl. one reachable only through a continuation, wind thunk, global and shadowed global, nested containers, another thread's stack and thread-local slot, the value being allocated) run with a forced full collection (through the engine's own mark/stop-the-world code) at every 1st/3rd/jittered allocation, JIT on/off, top level and module.",
+             note="Trusted: hook H-gc drives the engine's own mark code; poisoning makes stale reads visible. Values returned to the host (not rooted) are not inspected.", ref="DESIGN.md §5 C04"),
+ "C05": dict(technique="Miri (UB / use-after-free / data-race interpreter, many scheduler seeds) + native stress of a shadow-model history driver for steel-rc",
+             text="Exploration: seeded histories of new/clone/drop/move/get_mut/make_mut/try_unwrap/merge/thread-exit on <=3 threads with an exact shadow count (sequential mode) or schedule-independent assertions (concurrent mode): ~10^5 (quick) / 10^7 (thorough) native operations and 16 (quick) / 512 (thorough) Miri executions.",
+             note="Trusted: Miri's model of Rust semantics; schedules are sampled, not enumerated. Only steel-rc is interpreted by Miri (steel-core cannot run under it).", ref="DESIGN.md §5 C05"),
+ "C15": dict(technique="thread-stress runtime monitoring: H-slot events from threads running during a collection, crash monitor, result comparison for globals assigned by joined threads and mutex-protected counters; forced collections through the engine's stop-the-world code",
+             text="Exploration: generated programs with 1..8 native threads (channels, mutexes, global assignment, concurrent collectors, threads exiting during collections) under JIT on/off and forced full collections; a freed-slot access from a thread that runs while another collects, a crash, a lost global assignment or an inexact mutex-protected counter is a violation.",
+             note="The scan-overlap hook (H-sync) of the design was not built: 'parked for the whole inspection' is observed only through accesses to slots while they are flagged unreachable by a concurrent collection. OS schedules are sampled.", ref="DESIGN.md §5 C15"),
+ "C16": dict(technique="bounded-progress monitoring of thread workloads in killable children + exactly-once / per-sender FIFO checks computed over the received history",
+             text="Exploration: the same generated thread programs; every program must finish by its deadline (20 s quick / 60 s thorough; they take < 1 s when they finish), joins deliver each result once, every sent value is received once and in order per sender.",
+             note="Liveness is restated as bounded progress: a deadline expiry is reported as 'does not finish' (the programs' own logic cannot block). Address-space-cap aborts are inconclusive.", ref="DESIGN.md §5 C16"),
+ "C17": dict(technique="runtime monitoring of interruption: a second host thread calls ThreadStateController::interrupt() after a seeded delay while Engine::run executes a non-terminating shape; return time, result and post-resume probe observed from a parent process",
+             text="Exploration: 23 non-terminating shapes x {JIT on, JIT off, module} x interrupt delays 0..600 ms; violation = Engine::run has not returned 25 s after the request, returns Ok, panics, or the probe after resume() answers wrongly.",
+             note="'Bounded number of further steps' is decided by a generous wall-clock bound (no dispatch-counter hook was built).", ref="DESIGN.md §5 C17"),
+ "C19": dict(technique="invariant at a hook (H-heap: live slots after forced full collections, allocator free count vs flags) over allocation patterns with a known live set; slot-vector growth sampling under the natural policy; weak boxes",
+             text="Exploration: 12 garbage patterns (acyclic, cycles of length 1..50 through boxes/vectors/struct fields, self-capturing closures, garbage held by a local during a collection, by a dead continuation, by exited threads) at two sizes: live slots after two forced full collections must not grow with the amount of garbage; natural-policy runs of 4*10^6 (quick) / 10^8 (thorough) allocations must keep the slot vectors bounded; a dead weak-box target must report dead.",
+             note="'Eventually' = by the second forced full collection after the pattern ended. Liveness is read from the collector's own reachable flags.", ref="DESIGN.md §5 C19"),
 }
 NOT_YET = "check not built yet in this session (planned in DESIGN.md §5); no claim is made"
 man = {
